@@ -48,19 +48,20 @@ def run(ctx, chk):
     T = prog.enum("cbor_type")
     Tn = {v: k for k, v in T.items()}
     cache = O.PathCache(prog, eff)
+    CS = typestate.CallSites(prog, eff, cache, H, PA)
+    ITEM = ("arg", 0)
 
     # ---- dispatch
     f = prog.fn("cbor_serialize")
     where = "%s:%d" % (f.file, f.line)
     seen = set()
     for k, pa in enumerate(cache.get("cbor_serialize")):
-        ty = None
-        for key, vals in pa.st.inset.items():
-            if strip(key)[0] == "call" and strip(key)[1] == "cbor_typeof":
-                ty = sorted(vals)
-        if ty is None:
-            continue
         calls = [e for e in pa.events if e.kind == "call" and e.ckind == "lib" and e.callee.startswith("cbor_serialize_")]
+        if not calls:
+            continue   # arm for a value outside the enumeration
+        ty = sorted(CS.summary(f, pa, ITEM, upto=calls[0].nfacts)[0])
+        if not ty:
+            continue   # contradictory type tests: the path is infeasible
         ok = len(ty) == 1 and len(calls) == 1 and pa.ret == calls[0].res and calls[0].args == (("arg", 0), ("arg", 1), ("arg", 2))
         det = ""
         if ok:
@@ -86,14 +87,14 @@ def run(ctx, chk):
         gw = "%s:%d" % (g.file, g.line)
         widths_seen = set()
         for k, pa in enumerate(cache.get(name)):
-            w = None
-            for key, vals in pa.st.inset.items():
-                if strip(key)[0] == "call" and strip(key)[1] in ("cbor_int_get_width", "cbor_float_get_width"):
-                    w = sorted(vals)
-            if w is None or len(w) != 1:
+            encs = [e for e in pa.events if e.kind == "call" and e.ckind == "lib" and e.callee.startswith("cbor_encode_")]
+            if not encs:
+                continue
+            tys_, iw_, fw_, _fl = CS.summary(g, pa, ITEM, upto=encs[0].nfacts)
+            w = sorted(iw_ if fam[0] == "int" else fw_)
+            if len(w) != 1:
                 continue
             w = w[0]
-            encs = [e for e in pa.events if e.kind == "call" and e.ckind == "lib" and e.callee.startswith("cbor_encode_")]
             if len(encs) != 1 or pa.ret != encs[0].res:
                 chk.ob("C03.width", "%s width %d" % (name, w), False, gw, fn=name, key="%s:%d" % (name, w), detail="arm does not return a single encoder's result")
                 continue
@@ -164,12 +165,10 @@ def run(ctx, chk):
                 continue
             nested = [e for e in pa.events if e.kind == "call" and e.ckind == "lib" and
                       (e.callee.startswith("cbor_encode_") or e.callee.startswith("cbor_serialize"))]
-            definite = None
-            for e in pa.events:
-                if e.kind == "call" and e.callee == spec["defpred"] and e.args[0] == ("arg", 0):
-                    v = pa.st.truth.get(e.res)
-                    if v is not None:
-                        definite = v
+            tys_all, _iw, _fw, fl = CS.summary(g, pa, ITEM)
+            if not tys_all:
+                continue   # contradictory flavour/type tests (e.g. a field test and a predicate call that disagree): infeasible path
+            definite = True if fl == {0} else (False if fl == {1} else None)
             if definite is None or not nested:
                 chk.ob("C03.framing", "%s path %d: flavour is tested" % (name, k), False, gw, fn=name, key="%s:flav:%d" % (name, k))
                 continue
